@@ -54,6 +54,9 @@ def run_runner(payload, timeout=3000):
     return r
 
 
+HIST_KINDS = ["replace_section", "set_uid", "add_cmd", "insert_section", "add_section", "remove_section", "grow_load"]
+
+
 def rnd_pattern(n):
     return bytes((0xA5 + 7 * i) & 0xFF for i in range(n))
 
@@ -228,7 +231,11 @@ def py_rom21(file, kek, pub, structural=False):
         off = boff + 16 * count
     if off != stop:
         raise RomReject("sections overrun the image")
-    return {"flags": flags, "ts": ts, "build": build, "pv": [vers[0], vers[2], vers[4]], "cv": [vers[6], vers[8], vers[10]],
+    # the loader starts with the section whose id equals first_boot_section_id
+    ids = [uid for uid, _ in secs]
+    if first_sid not in ids:
+        raise RomReject(f"first boot section id {first_sid:#x} is carried by no section {[hex(u) for u in ids]}")
+    return {"boot_index": ids.index(first_sid), "flags": flags, "ts": ts, "build": build, "pv": [vers[0], vers[2], vers[4]], "cv": [vers[6], vers[8], vers[10]],
             "secs": secs, "signed_len": signed_len, "sig": sig}
 
 
@@ -473,7 +480,7 @@ THEOREM_FILES = ["cmd_roundtrip", "rom_cmd_decodes", "cmd_stream_roundtrip", "he
                  "keyblob_unwraps_aes", "rom_section_decodes", "rom21_build", "rom21_build_aes", "rom21_old_builder_sha_refuted",
                  "sections_all", "coverage21", "spsdk_parse21_build", "spsdk_parse21_build_aes", "parse21_accepts_only_verified",
                  "rom20_build", "rom20_build_aes", "spsdk_parse20_build", "spsdk_parse20_build_aes", "counter_agreement20",
-                 "counter_agreement20_aes", "coverage20"]
+                 "counter_agreement20_aes", "coverage20", "rom21_first_boot_section", "rom21_first_boot_section_aes"]
 
 
 def _run(tier, rep):
@@ -630,6 +637,8 @@ def _run(tier, rep):
                                 f"pv {r['pv']}/{bcd(case['pv'])} cv {r['cv']}/{bcd(case['cv'])} ts {r['ts']}")
             if r["signed_len"] != sl or r["sig"] != sig_of[i][1]:
                 problems.append("signed range / signature position")
+            if r["boot_index"] != 0:
+                problems.append(f"first_boot_section_id selects section {r['boot_index']} as the one to start with, not the first")
             if problems:
                 rep.failing("rom21:decoded-content-differs", "the ROM reference decodes something else than was given: " + "; ".join(problems),
                             {"kind": "build+rom", "case": case, "file": ex[1]})
@@ -683,14 +692,16 @@ def _run(tier, rep):
     import copy
     hist_ops = []
     for i, (case, b) in enumerate(zip(cases, built)):
-        if len(hist_ops) >= (24 if thorough else 5):
+        if len(hist_ops) >= (28 if thorough else 7):
             break
         if b["export"][0] != "ok" or case.get("via") == "config":
             continue
         c0 = copy.deepcopy(case)
         c0["pad"] = rnd_pattern(8).hex()      # the padding a re-created image draws from the (pinned) RNG
         c1 = copy.deepcopy(c0)
-        kind = ["add_cmd", "add_section", "grow_load"][len(hist_ops) % 3]
+        kind = HIST_KINDS[(len(hist_ops) + vlib.seed()) % len(HIST_KINDS)]
+        if kind == "remove_section" and len(c0["secs"]) < 2:
+            kind = "set_uid"
         loads = [(si, ci_) for si, s_ in enumerate(c0["secs"]) for ci_, c in enumerate(s_["cmds"]) if c[0] == 2]
         if kind == "grow_load" and not loads:
             kind = "add_cmd"
@@ -703,6 +714,22 @@ def _run(tier, rep):
             sec = {"uid": 0x77, "hmac": 2, "zero": 1, "cmds": [[7, 0, 0x400, 0, 0], [2, 0x4000, 0, "aa" * 40, 1]]}
             change = {"kind": kind, "sec": sec}
             c1["secs"].append(sec)
+        elif kind in ("replace_section", "insert_section"):
+            si = rng.randrange(len(c0["secs"])) if len(hist_ops) % 2 else 0
+            sec = {"uid": 0x5EC0 + len(hist_ops), "hmac": 1, "zero": 1, "cmds": [[5, 0x200, 9], [2, 0x5000, 0, "bb" * 19, 1]]}
+            change = {"kind": kind, "section": si, "sec": sec}
+            if kind == "replace_section":
+                c1["secs"][si] = sec
+            else:
+                c1["secs"].insert(si, sec)
+        elif kind == "set_uid":
+            si = rng.randrange(len(c0["secs"])) if len(hist_ops) % 2 else 0
+            change = {"kind": kind, "section": si, "uid": 0xA000 + len(hist_ops)}
+            c1["secs"][si]["uid"] = change["uid"]
+        elif kind == "remove_section":
+            si = 0 if len(hist_ops) % 2 == 0 else len(c0["secs"]) - 1
+            change = {"kind": kind, "section": si}
+            c1["secs"].pop(si)
         else:
             si, ci_ = loads[0]
             old = c0["secs"][si]["cmds"][ci_]
@@ -729,6 +756,16 @@ def _run(tier, rep):
                         "object configured with the new content",
                         {"kind": "history", "operations": ["build", "export", "update", "export", o["change"], "update", "export"],
                          "case": o["case"], "changed_case": o["changed_case"]})
+        if r["changed"][0] == "ok":      # the changed image must still be one the ROM starts at its first section
+            cinf = chain_info[o["case"]["chain"]]
+            try:
+                rr = py_rom21(bytes.fromhex(r["changed"][1]), bytes.fromhex(o["case"]["kek"]), (int(cinf["n"]), cinf["e"]))
+                if rr["boot_index"] != 0 or [u for u, _ in rr["secs"]] != [s_["uid"] for s_ in o["changed_case"]["secs"]]:
+                    raise RomReject(f"boot index {rr['boot_index']}, section ids {[u for u, _ in rr['secs']]}")
+            except RomReject as rj:
+                rep.failing(f"history:stale-after-change:{o['change']['kind']}:rom", f"after {o['change']['kind']} the exported file is not "
+                            f"processed as given by the ROM reference: {rj}",
+                            {"kind": "history", "operations": ["build", "export", o["change"], "update", "export"], "case": o["case"]})
     rep.add_stream("object history: second export, change then export vs fresh object, parse(data).export()", len(hist_ops) * 3, n_hist,
                    samples=[o["change"] for o in hist_ops[:3]])
     lap("history stream")
@@ -825,7 +862,7 @@ def _run(tier, rep):
                 if b["export"][0] == "ok" and (thorough or i % 2 == 0):
                     data = bytes.fromhex(b["export"][1])
                     ci = chain_info[case["chain"]]
-                    exprs.append(f"run_case 3 [VInt {ci['leaf_size']}; {lit(VB(bytes.fromhex(case['kek'])))}; {lit(VB(data))}]")
+                    exprs.append(f"run_case20 4 [VInt {ci['leaf_size']}; {lit(VB(bytes.fromhex(case['kek'])))}; {lit(VB(data))}]")
                     try:
                         r = py_rom21(data, bytes.fromhex(case["kek"]), (int(ci["n"]), ci["e"]))
                     except RomReject:
@@ -853,7 +890,7 @@ def _run(tier, rep):
                     exprs.append(f"run_case 7 [VList [{lit(v_cmd(c))}]]")
                     expect.append(("sem", spec_cmd(c)))
                     label.append(("sem", c))
-            model = vlib.run_model_cases("c04", "Value Sb2Model", exprs, shard=60 if not thorough else 120, timeout=1500,
+            model = vlib.run_model_cases("c04", "Value Sb2Model Sb20Model", exprs, shard=60 if not thorough else 120, timeout=1500,
                                          jobs=8)
             ndis = {}
             for e, m, lb in zip(expect, model, label):
@@ -873,10 +910,10 @@ def _run(tier, rep):
                     if r is None:
                         good = m == ("l", [])
                     else:
-                        want = ("l", [("l", [("i", 2), ("i", 1), ("i", r["flags"]), ("l", [("i", x) for x in r["pv"]]),
+                        want = ("l", [("l", [("l", [("i", 2), ("i", 1), ("i", r["flags"]), ("l", [("i", x) for x in r["pv"]]),
                                              ("l", [("i", x) for x in r["cv"]]), ("i", r["build"]), ("i", r["ts"]),
                                              ("l", [("l", [("i", uid), ("l", [rom_cmd_value(c) for c in cmds])]) for uid, cmds in r["secs"]]),
-                                             ("i", r["signed_len"]), ("b", r["sig"])])])
+                                             ("i", r["signed_len"]), ("b", r["sig"])]), ("i", r["boot_index"])])])
                         good = m == want
                 elif e[0] == "cmd":
                     r = e[1]
